@@ -419,5 +419,5 @@ Proof.
   intros d Hd. specialize (Hf d Hd). specialize (Hb d Hd). unfold def_guard_b in Hf. unfold def_guard.
   apply andb_prop in Hf. destruct Hf as [Hf Hkeq]. apply andb_prop in Hf. destruct Hf as [Hf Hkd].
   apply andb_prop in Hf. destruct Hf as [Hf Hm]. apply andb_prop in Hf. destruct Hf as [Hfr Hws].
-  rewrite Hfr, Hws, (barendregt_def_nocap p d Hfr Hws Hb), Hm, Hkd, Hkeq. reflexivity.
+  rewrite Hfr, Hws, Hm, Hkd, Hkeq. reflexivity.
 Qed.
